@@ -27,7 +27,7 @@ Open Scope Z_scope.
 
 (* ------------------------------------------------------------------ one cell *)
 (* a cell is rendered to exactly l runes when l is at least its minimal length and the cell
-   fits: always for text / empty / separator cells; for a percent cell iff --digits >= 0 and
+   fits: always for text / empty / separator cells; for a percent cell iff --digits is in 0..1e6 and
    the numeral of n * 100 with its percent sign has at most l runes; for a NaN iff l = 0 *)
 Theorem C17_weights_cell_width : forall round c l,
   pcell_indent_ok c -> wmin_length round c <= l -> pcell_fits_b round c l = true ->
@@ -99,7 +99,7 @@ Print Assumptions C17_weights_rect_unit.
 
 (* the numeral of a weight in [0, 1]: at most p + 4 runes at p places *)
 Theorem C17_weights_unit_len : forall round n,
-  0 <= round -> f64_in_unit n -> pct_len round n <= round + 5.
+  0 <= round <= 1000000 -> f64_in_unit n -> pct_len round n <= round + 5.
 Proof. exact pct_len_unit. Qed.
 Print Assumptions C17_weights_unit_len.
 
